@@ -49,3 +49,112 @@ PROPS["C17"] = {
     "assumptions": ["IEEE-754 double, round-to-nearest, no -ffast-math (harness build flags)",
                     "long double (x87 80-bit) closed forms T(tau), T'(tau) are the reference; validated against their own finite differences in --selftest"],
 }
+
+# ---------------------------------------------------------------------------------------------
+# C03 piecewise-polynomial evaluation
+C03_DIMS = [1, 2, 3, 6]
+for d in C03_DIMS:
+    T("ppoly_c03_d%d" % d, "ppoly_c03.cpp", defs=["VDIM=%d" % d], selftest=(d == 3))
+
+
+def _c03_jobs(tier):
+    per = 10000 if tier == "quick" else 500000
+    out = []
+    for d in C03_DIMS:
+        out += split("ppoly_c03_d%d" % d, per, 4)
+    return out
+
+
+PROPS["C03"] = {
+    "jobs": _c03_jobs,
+    "floor_quick": 20000, "floor_thorough": 1000000,
+    "rule": "a case = container type (dynamic, fixed 4/6/8/12) x dimension (one binary each for 1,2,3,6) x segment count ({1,2,3,31,32,33,64} or 1..80) "
+            "x coefficient count 1..12 x strictly increasing breakpoints (gaps 1 ulp, 2 ulp, 2^-20, O(1), 1e6; starts up to +-1e9) x coefficients, "
+            "followed by a history of 1..24 queries (t on a breakpoint / +-1 ulp / interior / before / after / far outside up to 1e300; derivative order 0..n+3; "
+            "hint carried over or set to valid, -1, INT_MIN, INT_MAX, n, n+1), every query evaluated through all routes; non-trivial = at least one query on or within "
+            "1 ulp of an INTERIOR breakpoint and at least one hinted query whose incoming hint differs from the piece containing t; distinct = hash of consumed tape",
+    "tolerances": {"value": "R1 running bound gamma = 2(n+1) 2^-52 sum|terms| (no free constant)", "routes": "bitwise identical (NaN==NaN, +0==-0)"},
+    "assumptions": ["breakpoints strictly increasing (with equal breakpoints the half-open piece is empty)", "derivative order >= 0",
+                    "value check skipped (counted) when the reference magnitude exceeds DBL_MAX/4 (t = +-1e300 queries); route identity still checked there"],
+}
+
+# ---------------------------------------------------------------------------------------------
+# C11 lazy caches and copies
+C11_DIMS = [1, 3]
+for d in C11_DIMS:
+    T("ppoly_c11_d%d" % d, "ppoly_c11.cpp", defs=["VDIM=%d" % d])
+
+
+def _c11_jobs(tier):
+    per = 12000 if tier == "quick" else 600000
+    out = []
+    for d in C11_DIMS:
+        out += split("ppoly_c11_d%d" % d, per, 8)
+    return out
+
+
+PROPS["C11"] = {
+    "jobs": _c11_jobs,
+    "floor_quick": 12000, "floor_thorough": 500000,
+    "rule": "a case is either (3/4) an operation sequence of 1..40 ops over a pool of 4 heap-allocated PPolyND instances of one container type "
+            "(dynamic, fixed 4/8/12): update with same sizes / different segment count / different coefficient count / rejected input, evaluate (plain or hinted) "
+            "at orders 0..n+2, copy-construct, copy-assign (incl. self), derivative(k) into the pool, destroy - with every live instance probed after every op against "
+            "a fresh object built from the model's data; or (1/4) a cubic/quintic/septic spline whose exposed trajectory (by reference) and copies (by value, by assignment) "
+            "are evaluated, the spline updated through either overload, and both probed again, for 1..6 rounds. non-trivial = an order evaluated on an instance, then that instance "
+            "mutated, then the same order probed again; or a copy probed after its source was mutated/destroyed; or a completed spline round. distinct = hash of consumed tape",
+    "tolerances": {"vs fresh object": "bitwise", "vs R1": "gamma running bound"},
+    "assumptions": ["evaluation of an uninitialised (rejected) object is not probed; only its isInitialized()/getNumSegments()"],
+}
+
+# ---------------------------------------------------------------------------------------------
+# C20 sampling / arc length / factories
+T("ppoly_c20_d2", "ppoly_c20.cpp", defs=["VDIM=2"], selftest=True)
+T("ppoly_c20_d1", "ppoly_c20.cpp", defs=["VDIM=1"])
+PROPS["C20"] = {
+    "jobs": lambda tier: split("ppoly_c20_d2", 48000 if tier == "quick" else 2400000, 12) + split("ppoly_c20_d1", 16000 if tier == "quick" else 800000, 4),
+    "floor_quick": 30000, "floor_thorough": 1500000,
+    "rule": "a case is (5/10) a (start,end,dt) triple - classes: dt dyadic and dividing exactly, dt=(end-start)/k in floating point (nearly divides), decimal steps, step larger than "
+            "the interval, interval = m*dt + remainder around the 1e-6 append threshold, zero length, generic; |start|<=1e6, <=2e5 steps, optionally a sub-range of a small trajectory - "
+            "checked against the sequence contract and batch-vs-pointwise evaluation; (2/10) an arc-length case on a cubic/quintic/septic spline or a hand-built C1 Hermite PPolyND, "
+            "whole range or sub-range, at dt and dt/2; (3/10) a factory case (zero / constant on generated breakpoints, container dynamic/fixed4/fixed8, coefficient count 1..12) probed at "
+            "generated times/orders/hints. non-trivial = interval not a multiple of dt or within 4 ulp of one (sequence), every length case, factory cases with >=2 segments",
+    "tolerances": {"grid": "2(i+1) ulp(|start|+|end|+dt)", "end": "1e-6 (+1e-9 guard band)", "length vs Riemann model": "4e-16 (n+16) relative",
+                   "length vs true arc length": "max step * integral |x''| (Gauss-Legendre, two levels agreeing) + 1e-9(1+L)"},
+    "assumptions": ["end >= start, dt >= 1e-4, at most 2e5 steps, |t| <= 1e6+4000 (beyond ~1e9 one ulp exceeds the 1e-6 of the contract)",
+                    "length bound is judged only when the two quadrature levels agree (counted otherwise)"],
+}
+
+# ---------------------------------------------------------------------------------------------
+# C16 validity verdicts
+C16_DIMS = [1, 2, 3]
+for d in C16_DIMS:
+    T("opt_c16_d%d" % d, "opt_c16.cpp", defs=["VDIM=%d" % d])
+
+
+def _c16_jobs(tier):
+    per = 16000 if tier == "quick" else 800000
+    out = []
+    for d in C16_DIMS:
+        out += split("opt_c16_d%d" % d, per, 4)
+        # exhaustive single placements: every configuration once (quick) or 16 data sets per configuration (thorough)
+        tot = 3 * 3 * sum(1 + N + (N + 1) * d + 6 * d for N in range(1, 5))
+        reps = 1 if tier == "quick" else 16
+        j = split("opt_c16_d%d" % d, tot * reps, 1, prop="C16e")
+        out += j
+    return out
+
+
+PROPS["C16"] = {
+    "jobs": _c16_jobs,
+    "floor_quick": 30000, "floor_thorough": 1500000,
+    "rule": "three kinds of case, dimension 1..3 (one binary each): (a) a history of 1..6 initialisations on ONE optimizer (cubic/quintic/septic): 0..5 durations from a palette "
+            "around the 1 ms threshold (1e-3, its two neighbours, 1e-3(1+-2^-30), 0, negative, denormal, 1e300, NaN, +-Inf), waypoint rows N+1 / 0 / N / N+2, start time finite or non-finite, "
+            "0..3 non-finite values placed in waypoints and the six boundary vectors, through the durations overload, the time-point overload (oracle applied to the rounded differences) "
+            "or an empty time-point vector; after each one the return value, isValid, operator bool, getLastError, checkValidity(&msg) and checkValidity() are compared with an independently "
+            "written predicate; (b) PPolyND construction/update with 0/1/2.. breakpoints, row counts off by +-1 and +-one segment, coefficient counts up to ORDER+3, on dynamic/fixed4/fixed8, and "
+            "at(i) for i in {INT_MIN,-1,0,n-1,n,n+1,INT_MAX,random}; (c) [C16e, enumerated] every single placement of NaN/+Inf/-Inf in every input field for N=1..4 x 3 orders. "
+            "non-trivial = exactly one offending field, or a duration within 2 ulp / 2^-30 of the threshold, or a rejected PPolyND input, or any single-placement case",
+    "exhaustive_note": "the C16e sub-space (order x N in 1..4 x field x {NaN,+Inf,-Inf}) is enumerated completely on every run; data in the other fields are generated",
+    "assumptions": ["after an empty time-point vector only the return value, the flag and the message are judged (the statement says nothing about the stored state)",
+                    "dynamic-order PPolyND with 0 coefficients and 0 rows is not judged (the statement does not cover it)"],
+}
